@@ -131,6 +131,22 @@ class Program:
         self.renames: Dict[str, str] = _renames.canonicalise({m.name: m.tree for m in self.modules.values()}) if self.package == PACKAGE else {}
         for m in self.modules.values():
             self._index_module(m)
+        # a method of the pinned tree that its class no longer overrides: the base class's method, analysed for
+        # this class (calls on `self` resolve to the class's own overrides -- template methods)
+        if self.package == PACKAGE:
+            from .flow import known_functions
+            for q in sorted(known_functions()):
+                if q in self.functions or "." not in q:
+                    continue
+                cq, meth = q.rsplit(".", 1)
+                ci = self.classes.get(cq)
+                if ci is None:
+                    continue
+                for b in self.mro(ci)[1:]:
+                    if meth in b.methods:
+                        bf = b.methods[meth]
+                        self.functions[q] = FuncInfo(q, meth, bf.node, bf.module, ci, None, bf.is_async, list(bf.decorators))
+                        break
 
     def _index_module(self, m: Module) -> None:
         for node in ast.walk(m.tree):
